@@ -20,7 +20,7 @@ CONFIG = dict(
           "the order makes an event wait for >= 2 unconnected parents AND a Check/Process failure hits an event that was itself "
           "waiting in the buffer or has a descendant waiting there (the F2 witness shape); for all-orders cases: at least one "
           "order of the case is non-trivial. Distinct by hash of (events, operations, limits)."),
-    assumptions=[
+    assumptions=["TestC14Concurrent: the events of a parents-closed DAG are pushed from 2-4 goroutines (25 runs per drawn case, ample limits, nothing fails); only the completeness clause is judged there, per-copy clauses are judged by the sequential units and linearizability by C28", 
         "an event counts as connected exactly when the harness-owned Exists/Get say so (Process returned nil, or connected outside)",
         "callbacks are invoked synchronously by PushEvent/Clear (sequential driver)",
         "'limits suffice' = both limits are at least the peak number/bytes of events the reference model must keep waiting",
@@ -30,5 +30,6 @@ CONFIG = dict(
         dict(test="TestC14Enum", kind="plain", shards=16),
         dict(test="TestC14Perms", quick=150, thorough=3200, shards=16),
         dict(test="TestC14Random", quick=20000, thorough=1600000, shards=16),
+        dict(test="TestC14Concurrent", quick=1500, thorough=96000, shards=16),
     ],
 )
